@@ -408,8 +408,8 @@ def attribute_pieces(ctx):
             acc_ok = False
         elif isinstance(st_, ast.AugAssign) and isinstance(st_.op, ast.BitOr):
             continue
-        elif isinstance(st_, ast.Expr) and isinstance(st_.value, ast.Call) and isinstance(st_.value.func, ast.Attribute) and st_.value.func.attr == "update":
-            continue
+        elif isinstance(st_, ast.Expr) and isinstance(st_.value, ast.Call) and isinstance(st_.value.func, ast.Attribute) and st_.value.func.attr in ("update", "append", "extend", "add"):
+            continue  # added to a collection (a set, or a list of sets that is unioned afterwards)
         else:
             acc_ok = False
     ctx.check(acc_ok, "identifiers-accumulated", db.where(uses[0]) if uses else db.where(lp), "the names read by the expression pieces of one attribute are not accumulated piece by piece (a later piece replaces those of the earlier ones): names used only in an earlier ${...} are not fetched from the context and the attribute raises NameError at render time", "undeclared identifiers of every piece are added to the attribute's set")
